@@ -1,6 +1,7 @@
 (* Correspondence for the parts c02prims / c01stream: a case is one call (or a short program of calls) of the real
    code together with everything observed: outputs, error classes, consumed bytes, panic flag and the
-   runtime.MemStats.TotalAlloc delta of the call, which must stay below A0 + A1 * (abstract cost of the model). *)
+   runtime.MemStats.TotalAlloc delta of the call, which must stay below A0 + A1 * (abstract cost of the model)
+   (stream reads: alloc_ok_stream, which does not multiply whole buffers by A1). *)
 From Coq Require Import ZArith NArith List Bool.
 From Verif.C02_Prims Require Import Model Stream.
 Import ListNotations.
@@ -58,6 +59,23 @@ Inductive case :=
 
 Definition alloc_ok (alloc cost : N) : bool := (alloc <=? A0 + A1 * cost)%N.
 
+(* stream reads: the abstract cost of ReadBytes contains whole buffers (up to 1 MiB up front, c8478d2), and a buffer of
+   n bytes costs the allocator n plus size-class rounding (<= 1/4), not 64 n; the factor A1 stays for the small costs
+   (loop iterations, tiny makes, the harness's own bookkeeping per element), capped at 4096 units.
+   A length field of 2^30 backed by 3 bytes: cost 2^20, bound 64 KiB + 256 KiB + 1.25 MiB. *)
+Definition alloc_ok_stream (alloc cost : N) : bool :=
+  (alloc <=? A0 + A1 * N.min cost 4096 + cost + cost / 4)%N.
+
+(* large inputs are written as [pat n] = [0; 1; ...; 250; 0; 1; ...] (n bytes, period 251: not a divisor of any
+   buffer size of ReadBytes), so that a case with 2^20 bytes stays a short term *)
+Definition pat_step (st : N * list N) : N * list N :=
+  let '(x, acc) := st in ((if (x =? 0)%N then 250 else N.pred x)%N, x :: acc).
+Definition pat (n : N) : list N :=
+  match n with
+  | N0 => []
+  | _ => snd (N.iter n pat_step ((N.pred n) mod 251, []))%N
+  end.
+
 Definition agree (c : case) : bool :=
   match c with
   | CDes input ops outs foff ferr panicked alloc =>
@@ -69,7 +87,7 @@ Definition agree (c : case) : bool :=
   | CRead d evs o result consumed alloc =>
       let '(x, r', cost) := rop_run o (mkR d evs) in
       res_eqb sval_eqb x result && (length d - length (rdata r') =? consumed) &&
-      (match x with Panic => true | _ => alloc_ok alloc cost end)
+      (match x with Panic => true | _ => alloc_ok_stream alloc cost end)
   | CWrite pre o result =>
       res_eqb bytes_eqb (match wop_run o (mkB pre (length pre)) with Ok b => Ok (bbuf (bb_write b [238%N])) | Err e => Err e | Panic => Panic end) result
       (* the harness writes one sentinel byte after the helper returns: the final write position is observed too *)
